@@ -112,6 +112,9 @@ type isoStream struct {
 	lastSeg  int
 	handler  *rtsp.VerifReceiveHandler
 	channels []int
+	sps0     []byte
+	pps0     []byte
+	asc0     []byte
 }
 
 var isoSeq int
@@ -120,6 +123,9 @@ func newIsoStream() *isoStream {
 	isoSeq++
 	st := &isoStream{s: media.NewStream("/c07iso/"+strconv.Itoa(isoSeq), isoSdp), rtpSeen: newSeen(), flvV: newSeen(), flvA: newSeen(),
 		seq: uint16(1000 * isoSeq), ts: 90000, ats: 44100, channels: []int{0, 1, 2, 3}}
+	st.sps0 = append([]byte(nil), st.s.Video.Sps...)
+	st.pps0 = append([]byte(nil), st.s.Video.Pps...)
+	st.asc0 = append([]byte(nil), st.s.Audio.Sps...)
 	st.s.StartConsume(&rtpConsumer{st.rtpSeen}, media.RTPPacket, "iso")
 	st.s.StartConsume(&flvConsumer{st.flvV, st.flvA}, media.FLVPacket, "iso")
 	st.handler = &rtsp.VerifReceiveHandler{
@@ -230,6 +236,45 @@ func (st *isoStream) probeSend() (id uint32, bad, uneval bool) {
 	return
 }
 
+// metaKept: Stream.Video / Stream.Audio still carry the parameter sets of the SDP, and the newest HLS
+// segment puts exactly that SPS and PPS in front of its key frame
+func (st *isoStream) metaKept() bool {
+	v, a := &st.s.Video, &st.s.Audio
+	if !bytes.Equal(v.Sps, st.sps0) || !bytes.Equal(v.Pps, st.pps0) || !bytes.Equal(a.Sps, st.asc0) ||
+		v.Codec != "H264" || a.Codec != "AAC" {
+		return false
+	}
+	if h := st.s.Hlsable(); h != nil && st.lastSeg > 0 {
+		if r, _, err := h.Segment(st.lastSeg); err == nil {
+			seg, _ := io.ReadAll(r)
+			want := append(append([]byte{0, 0, 0, 1}, st.sps0...), append([]byte{0, 0, 0, 1}, st.pps0...)...)
+			if !bytes.Contains(tsPayload(seg), want) {
+				return false
+			}
+		}
+	}
+	return true
+}
+
+// tsPayload: the payload bytes of the video PID (256) of a transport stream, adaptation fields removed
+func tsPayload(seg []byte) []byte {
+	var out []byte
+	for i := 0; i+188 <= len(seg); i += 188 {
+		p := seg[i : i+188]
+		if p[0] != 0x47 || (int(p[1]&0x1f)<<8|int(p[2])) != 256 {
+			continue
+		}
+		off := 4
+		if p[3]&0x20 != 0 {
+			off += 1 + int(p[4])
+		}
+		if p[3]&0x10 != 0 && off < 188 {
+			out = append(out, p[off:]...)
+		}
+	}
+	return out
+}
+
 func (st *isoStream) keyFrames(id uint32, round int) []byte {
 	var k []byte
 	for i := 0; i < 2; i++ {
@@ -320,8 +365,10 @@ func isoRun(c Val) Val {
 		a.pin()
 		b.pin()
 	}
-	// warm-up: the first HLS segment of each stream
-	a.probe()
+	if c.At(0).Int() != 2 { // 2: the first fault is the very first media packet of stream A
+		// warm-up: the first HLS segment of each stream
+		a.probe()
+	}
 	b.probe()
 	out := []Val{}
 	faults := c.At(1).List()
@@ -353,6 +400,9 @@ func isoRun(c Val) Val {
 				return unevalVal("probe of the faulted stream")
 			}
 		}
+		// the streams' shared metadata survived, and what is produced from it is still right
+		self = self && a.metaKept()
+		other = other && b.metaKept()
 		gor := countConverters() == want
 		out = append(out, L(Bo(panicked), Bo(other), Bo(self), Bo(join), Bo(gor)))
 		if panicked || !other || !self || !join || !gor {
